@@ -287,6 +287,16 @@ def oracle(rng, thorough, deep=False, hints=None):
         cases.append(dict(tomo_seed=int(rng.integers(0, 1000)), tomo_shape=tshape, pos=pos, scale=scale,
                           quat=_rand_quat(rng, qk), shape=shape, order=order, corner_safe=cs,
                           chunks=chunks, exact=exact, kind=kind))
+    # corner-safe loading of elongated boxes at orientations that are not single-axis rotations
+    from scipy.spatial.transform import Rotation
+    perm = Rotation.from_rotvec(np.array([1.0, 1.0, 1.0]) / np.sqrt(3) * (2 * np.pi / 3)).as_quat().tolist()
+    for it in range(40 if (thorough or deep) else 8):
+        shape = [int(x) for x in rng.permutation([3, 5, 11])]
+        q = perm if it % 4 == 0 else _rand_quat(rng, "generic")
+        cases.append(dict(tomo_seed=int(rng.integers(0, 1000)), tomo_shape=[30, 30, 30],
+                          pos=[float(rng.integers(8 * 13, 8 * 17) / 8) for _ in range(3)], scale=1.0,
+                          quat=q, shape=shape, order=int(rng.choice([1, 3])), corner_safe=True,
+                          chunks=None, exact=False, kind="cs-elongated"))
     for inp in cases:
         k = inp.pop("kind")
         stats[k] = stats.get(k, 0) + 1
